@@ -112,7 +112,7 @@ theorem initTables_spec (d : ModDesc) (w w' : World) (r : Resolver) (i : Instanc
 /-! ## globals -/
 
 theorem initGlobals_fold (d : ModDesc) (w : World) (r : Resolver) (w' : World) (hgl : w'.globals = w.globals)
-    (es : List CExpr) : ∀ (i : Instance), i.globImp = (List.range d.globalImports).map r.global →
+    (es : List ConstE) : ∀ (i : Instance), i.globImp = (List.range d.globalImports).map r.global →
     (∀ e ∈ es, ∃ v, evalConst d w r e = some v) →
     ∃ vs, foldM' (fun (s : St) e => evalC d s.1.globals s.2 e >>= fun v => .val (s.1, { s.2 with globals := s.2.globals ++ [v] })) (w', i) es
         = .val (w', { i with globals := i.globals ++ vs }) ∧ vs.map some = es.map (evalConst d w r) := by
